@@ -1,21 +1,26 @@
 #!/bin/bash
-# usage: tools/audit.sh <patch> <check-id>...
-# Applies a property-breaking patch to /repo, confirms it compiles and passes the 107 baseline
-# tests (guard off), runs the named quick checks against it, and reverts /repo.
+# usage: tools/audit.sh <patch> <check-id>...      (env: AUDIT_SLOT=0..7, AUDIT_SKIP_TESTS=1, AUDIT_TIER)
+# Applies a property-breaking patch to a SCRATCH worktree of /repo (never to /repo itself),
+# confirms that it compiles and passes the 107 baseline tests with the guard off, runs the
+# named checks against the scratch copy (VERIF_REPO) and removes the worktree.
 # Output: one line per check: <patch> <id> exit=<code> <first signature>
 set -u
-PATCH="$1"; shift
-cd /repo || exit 2
-if [ -n "$(git status --porcelain -- src Cargo.toml)" ]; then echo "audit: /repo is not clean" >&2; exit 2; fi
-if ! git apply "$PATCH"; then echo "audit: patch does not apply: $PATCH" >&2; exit 2; fi
-trap 'git -C /repo checkout -- . ' EXIT
+PATCH="$(readlink -f "$1")"; shift
+SLOT="${AUDIT_SLOT:-0}"
+WT=/tmp/audit-wt-$SLOT
+ROOT=/tmp/audit-root-$SLOT
+git -C /repo worktree remove --force $WT >/dev/null 2>&1; rm -rf $WT $ROOT
+git -C /repo worktree add -q --detach $WT HEAD || exit 2
+trap 'git -C /repo worktree remove --force '$WT' >/dev/null 2>&1; rm -rf '$ROOT EXIT
+mkdir -p $ROOT; cp /verif/known_findings.json $ROOT/
+if ! git -C $WT apply "$PATCH"; then echo "audit: patch does not apply: $PATCH" >&2; exit 2; fi
 if [ "${AUDIT_SKIP_TESTS:-0}" != "1" ]; then
-  T=$(cargo test --offline 2>&1 | grep -E "^test result" | head -1)
+  T=$(cd $WT && CARGO_TARGET_DIR=/verif/sim/target-tests-$SLOT cargo test --offline 2>&1 | grep -E "^test result" | head -1)
   echo "baseline: $T"
   case "$T" in *"107 passed; 0 failed"*) ;; *) echo "audit: baseline tests do not pass with $PATCH (not a realistic change)"; exit 3;; esac
 fi
 for ID in "$@"; do
-  OUT=$(/verif/bin/check "$ID" ${AUDIT_TIER:-quick} 2>&1); CODE=$?
+  OUT=$(VERIF_REPO=$WT VERIF_AUDIT_SLOT=$SLOT VERIF_AUDIT_ROOT=$ROOT /verif/bin/check "$ID" ${AUDIT_TIER:-quick} 2>&1); CODE=$?
   SIG=$(echo "$OUT" | grep -m1 "signature:" | sed 's/^ *signature: //')
   echo "$(basename "$PATCH") $ID exit=$CODE ${SIG}"
 done
